@@ -236,7 +236,10 @@ class Engine:
         self.simplified = []
         self.cur_entry = None
         from . import models
+        from . import stdlib  # noqa: F401  (registers the libstdc++ models)
         models.install(self)
+        self.tokens = {}
+        self.token_values = {}
         self._layout_globals()
 
     # ------------------------------------------------------------------ globals
